@@ -1149,13 +1149,15 @@ class DEC(IncDecInstruction):
 
 class ExchangeInstruction(Instruction):
     def lift_single_exchange(self, il: LowLevelILFunction, addr: int) -> None:
+        # Honour the PRE addressing modes (the same ones render() shows).
+        dst_mode, src_mode = self._addressing_modes()
         first, second = self.operands()
         assert isinstance(first, HasWidth), f"Expected HasWidth, got {type(first)}"
         width = first.width()
         tmp = TempReg(TempExchange, width=width)
-        tmp.lift_assign(il, first.lift(il))
-        first.lift_assign(il, second.lift(il))
-        second.lift_assign(il, tmp.lift(il))
+        tmp.lift_assign(il, first.lift(il, dst_mode))
+        first.lift_assign(il, second.lift(il, src_mode), dst_mode)
+        second.lift_assign(il, tmp.lift(il), src_mode)
 
     def encode(self, encoder: Encoder, addr: int) -> None:
         op1, op2 = self.operands()
